@@ -250,16 +250,37 @@ Definition exact_spell4 (v m i : val) : bool :=
   | _ => false
   end.
 
-(** * the domain in which no run may panic: a positive probability, every kept key a 3-gram, sane powf
-    results, no empty list of misspellings *)
-Definition miss_sane (m : miss) : bool := forallb (fun e : str * list str => negb (Nat.eqb (length (snd e)) 0)) m.
+(** * the domain in which no run may panic ([C15_SpellTotal.spell_text_total_l]): a positive probability; with a
+    character dictionary every kept key is a 3-gram and the powf results are sane; no word has an empty list of
+    misspellings; sizes below the machine limits of [random_range]: (|text| + 1) * (B + 2) < 2^62 with B the longest
+    edit string in code points, every list of misspellings shorter than 2^32 *)
+Definition mode_cfg (mode : nat) (fd : bool) (items : list item) : option wcfg :=
+  if has_tables mode then
+    match build_tables items with
+    | TOk it rt => Some (spell_cfg fd (Some (it, rt)))
+    | TPanic => None
+    end
+  else Some (spell_cfg fd None).
+Definition mode_miss (mode : nat) (m : miss) : miss := if has_miss mode then m else [].
+
+Definition max_str (c : cfg) : nat :=
+  fold_right Nat.max 0 (map (fun e => length (concat e)) (itab_strings (itab c) ++ rtab_strings (rtab c))).
+Definition size_ok (wc : wcfg) (text : str) : bool :=
+  (N.of_nat (S (length text)) * N.of_nat (max_str (erase wc) + 2) <? 4611686018427387904)%N.
+Definition miss_smallb (m : miss) : bool :=
+  forallb (fun e : str * list str => (0 <? length (snd e)) && (N.of_nat (length (snd e)) <? 4294967296)%N) m.
+
+Definition dom_ok (mode : nat) (fd : bool) (prob : f64w) (items : list item) (m : miss) (text : str) : bool :=
+  positive (fclamp01 prob)
+  && match mode_cfg mode fd items with
+     | Some wc => (negb (has_tables mode) || items_sane items) && size_ok wc text
+     | None => false
+     end
+  && miss_smallb (mode_miss mode m).
+
 Definition dom4 (v : val) : bool :=
-  let mode := v_nat (v_nth 1 v) in
-  let items := v_list v_item (v_nth 5 v) in
-  positive (fclamp01 (v_f64w (v_nth 0 (v_nth 7 v))))
-  && (negb (has_tables mode)
-      || (match build_tables items with TOk _ _ => true | TPanic => false end && items_sane items))
-  && (negb (has_miss mode) || miss_sane (v_miss (v_nth 6 v))).
+  dom_ok (v_nat (v_nth 1 v)) (v_bool (v_nth 2 v)) (v_f64w (v_nth 0 (v_nth 7 v)))
+         (v_list v_item (v_nth 5 v)) (v_miss (v_nth 6 v)) (v_str (v_nth 4 v)).
 
 (** executable statement on an implementation output: the two runs agree (the closure is a function of
     text, seed and the two files), and inside the domain neither panicked *)
